@@ -78,3 +78,7 @@ Definition corr_dom (d : yv) : bool :=
               end
   | _ => false
   end.
+
+(* collecting-mode error list vs strict outcome, as stated in the property text *)
+Definition collect_iff (strict : outcome (list N)) (errs : list N) : Prop :=
+  (errs = [] <-> strict = Ok []) /\ (forall e, hd_error errs = Some e <-> strict = SigmaErr e).
